@@ -34,6 +34,11 @@ NCPU = os.cpu_count() or 4
 # scratch trees (sensitivity runs with VERIF_REPO=<worktree>) get their own build and bin directories
 # (their evidence and replay files go to work/ as well, never to the committed directories)
 SUFFIX = "" if os.path.realpath(REPO) == "/repo" else "-" + hashlib.sha1(os.path.realpath(REPO).encode()).hexdigest()[:8]
+# development aid: VERIF_ONLY_FILES=<regex> compiles only the harness _test.go files whose path matches (shared
+# non-test overlay packages are always included), so that somebody else's half-written file cannot break a build
+ONLY = os.environ.get("VERIF_ONLY_FILES")
+if ONLY:
+    SUFFIX += "-only" + hashlib.sha1(ONLY.encode()).hexdigest()[:6]
 
 
 def log(*a):
@@ -114,6 +119,8 @@ def prepare_build_dir():
         for fn in files:
             src = os.path.join(d, fn)
             rel = os.path.relpath(src, root)
+            if ONLY and fn.endswith("_test.go") and not re.search(ONLY, rel):
+                continue
             repl[os.path.join(REPO, rel)] = src
     ov = os.path.join(bdir, "overlay.json")
     with open(ov, "w") as f:
